@@ -765,6 +765,8 @@ pub fn gen_case(seed: u64, id: u64) -> Case {
                         "boolean('')", "not(//*)", "count(/)", "//*[position()=last()]/..", "(//*)[0]", "//*[-1]", "//*[1.5]", "//*[0 div 0]",
                         "//*[true()][false()]", "//*[last()][last()]", "//text()[string-length() > 2]", "//*[name() = local-name()]",
                         "//*[count(ancestor::*) > 1]", "//*[sum(@id) > 0]", "//*[string(@x)]", "//*[not(@*)]", "-(-1)", "1 - -1", "2 * 3 div 4 mod 5",
+                        "((((((((((((((((((((((((1))))))))))))))))))))))))", "count(//*[count(//*[count(//*[count(//*[count(//*[count(//*[count(//*[count(//*[count(//*)])])])])])])])])",
+                        "string(string(string(string(string(string(string(string(string(string(string(string(string(string(string(string(string(string(string(string(string(string(string(string(1))))))))))))))))))))))))",
                         "'a' = 1", "true() > false()", "//namespace::*[/]", "//namespace::*[/*]", "//namespace::*/..", "//namespace::*/parent::*",
                         "count(//namespace::*/ancestor::*)", "//namespace::*[name()]", "string(//namespace::*)", "//namespace::*[. = 'urn:p']",
                         "//namespace::*/following::*", "//namespace::*/self::node()", "//namespace::*/namespace::*", "//@*[/]", "//@*/following::*",
